@@ -22,6 +22,7 @@ RULE = ("(index) enumeration: for n 1..10 EVERY row k of generate_hilbert_space(
         "with an independent str.split parse; extract_refbasis_samples vs my own row filter for any pattern incl. none/all. "
         "Non-trivial = (index) n >= 3, (positions) a non-palindromic tag, (files) >= 2 distinct bases incl. an all-Z row.")
 RULE_EXT = ('Extended as built: numpy integer / keyword argument forms, returned spaces edited in place three times (no shared cache), default max_size of a 21-qubit model, files rewritten at the same paths, tiny entries, D in {2,4,8,16}.')
+RULE_EXT += ' Round 10 (after an exception / long time axis): sub-check history: 3-30 requests on one object (spaces of size 1-9 in sweeps, single vectors of size 1-30, refused sizes 21-30 followed by single vectors of that size, defaults of 22- and 24-site registers).'
 RULE = RULE + " " + RULE_EXT
 ASSUMPTIONS = ["targets compared with the written number rounded to float32, to 0.02 float32 ulp (documented single precision)",
                "single-row / single-column files are not generated (np.loadtxt squeezes them; the property speaks of contents)"]
